@@ -397,7 +397,132 @@ def gen_extras():
     return '\n'.join(out)
 
 
-GENERATORS = {'Consts.v': gen_consts, 'EntryPoints.v': gen_entrypoints, 'Extras.v': gen_extras}
+# ------------------------------------------------------------ Tokens/Color --
+def gen_tokens():
+    syn = parse('syntax.py')
+    cls = [n for n in syn.body if isinstance(n, ast.ClassDef) and n.name == 'Token']
+    need(len(cls) == 1, 'syntax.py: class Token')
+    vals = []
+    for st in cls[0].body:
+        need(isinstance(st, ast.Assign) and len(st.targets) == 1 and isinstance(st.targets[0], ast.Name)
+             and isinstance(st.value, ast.Constant) and isinstance(st.value.value, int), 'Token members NAME = int')
+        vals.append((st.targets[0].id, st.value.value))
+    col = parse('color.py')
+    tbl = find_assign(col.body, '_SYNTAX_TOKEN_TO_PYGMENTS_TOKEN')
+    need(isinstance(tbl, ast.Dict), '_SYNTAX_TOKEN_TO_PYGMENTS_TOKEN = {...}')
+    keys = []
+    for k in tbl.keys:
+        need(isinstance(k, ast.Attribute) and isinstance(k.value, ast.Name) and k.value.id == 'Token',
+             'table keys are Token.X')
+        keys.append(k.attr)
+    # the lookup in the renderer is a plain subscript of that table
+    rend = find_func(col, 'colored_render_to_stream')
+    subs = walk_find(rend, lambda n: isinstance(n, ast.Subscript) and isinstance(n.value, ast.Name)
+                     and n.value.id == '_SYNTAX_TOKEN_TO_PYGMENTS_TOKEN')
+    need(len(subs) == 1, 'colored_render_to_stream looks the token up in _SYNTAX_TOKEN_TO_PYGMENTS_TOKEN once')
+    emitted = set()
+    files = ['prettyprinter.py', 'pretty_stdlib.py'] + \
+        [os.path.join('extras', f) for f in sorted(os.listdir(os.path.join(PKG, 'extras'))) if f.endswith('.py')]
+    for rel in files:
+        tree = parse(rel)
+        for n in ast.walk(tree):
+            if isinstance(n, ast.Attribute) and isinstance(n.value, ast.Name) and n.value.id == 'Token':
+                emitted.add(n.attr)
+    names = {n for n, _v in vals}
+    need(emitted <= names, 'printers use unknown Token members: %r' % sorted(emitted - names))
+    out = ['(* GENERATED by harness/translate.py from syntax.py, color.py and the printers - do not edit *)',
+           'From Coq Require Import NArith List String.', 'Import ListNotations.', 'Open Scope string_scope.',
+           'Definition token_values : list (string * N) := [%s].' % '; '.join(
+               '(%s, %d%%N)' % (coq_string(n), v) for n, v in vals),
+           'Definition table_tokens : list string := [%s].' % '; '.join(coq_string(k) for k in keys),
+           'Definition emitted_tokens : list string := [%s].' % '; '.join(coq_string(k) for k in sorted(emitted)),
+           '']
+    return '\n'.join(out)
+
+
+def gen_colorful():
+    col = parse('color.py')
+    fn = find_func(col, 'styleattrs_to_colorful')
+    mods = []
+    for n in ast.walk(fn):
+        if isinstance(n, ast.AugAssign) and isinstance(n.op, ast.BitAnd) and isinstance(n.value, ast.Attribute) \
+                and isinstance(n.value.value, ast.Name) and n.value.value.id == 'colorful':
+            mods.append(n.value.attr)
+    need(mods, 'styleattrs_to_colorful: c &= colorful.<modifier>')
+    # the accessor built for each presence combination of color / bgcolor
+    blocks = [n for n in fn.body if isinstance(n, ast.If) and ast.dump(n.test) == ast.dump(
+        ast.parse("attrs['color'] or attrs['bgcolor']", mode='eval').body)]
+    need(len(blocks) == 1, "styleattrs_to_colorful: if attrs['color'] or attrs['bgcolor']:")
+
+    def run(stmts, env, attrs):
+        for st in stmts:
+            if isinstance(st, ast.Assign) and len(st.targets) == 1 and isinstance(st.targets[0], ast.Name) \
+                    and st.targets[0].id == 'accessor':
+                env['accessor'] = ev(st.value, env, attrs)
+            elif isinstance(st, ast.AugAssign) and isinstance(st.target, ast.Name) and st.target.id == 'accessor' \
+                    and isinstance(st.op, ast.Add):
+                env['accessor'] = env['accessor'] + ev(st.value, env, attrs)
+            elif isinstance(st, ast.AugAssign) and isinstance(st.target, ast.Name) and st.target.id == 'c':
+                need(ast.dump(st.value) == ast.dump(ast.parse('getattr(colorful, accessor)', mode='eval').body),
+                     'c &= getattr(colorful, accessor)')
+                env['used'] = env['accessor']
+            elif isinstance(st, ast.If):
+                run(st.body if ev(st.test, env, attrs) else st.orelse, env, attrs)
+            elif isinstance(st, ast.Expr) and isinstance(st.value, ast.Call) and \
+                    ast.unparse(st.value.func) == 'colorful.update_palette':
+                d = st.value.args[0]
+                need(isinstance(d, ast.Dict) and len(d.keys) == 1 and isinstance(d.keys[0], ast.Constant),
+                     'colorful.update_palette({name: ...})')
+                env.setdefault('palette', []).append(d.keys[0].value)
+            elif isinstance(st, ast.Expr) and isinstance(st.value, ast.Constant):
+                pass
+            else:
+                raise TranslateError('styleattrs_to_colorful: statement not understood: %s' % ast.unparse(st))
+
+    def ev(e, env, attrs):
+        if isinstance(e, ast.Constant) and isinstance(e.value, str):
+            return e.value
+        if isinstance(e, ast.Name) and e.id == 'accessor':
+            return env['accessor']
+        if isinstance(e, ast.BinOp) and isinstance(e.op, ast.Add):
+            return ev(e.left, env, attrs) + ev(e.right, env, attrs)
+        if isinstance(e, ast.IfExp):
+            return ev(e.body, env, attrs) if ev(e.test, env, attrs) else ev(e.orelse, env, attrs)
+        if isinstance(e, ast.Subscript) and isinstance(e.value, ast.Name) and e.value.id == 'attrs' \
+                and isinstance(e.slice, ast.Constant):
+            return attrs[e.slice.value]
+        if isinstance(e, ast.UnaryOp) and isinstance(e.op, ast.Not):
+            return not ev(e.operand, env, attrs)
+        raise TranslateError('styleattrs_to_colorful: expression not understood: %s' % ast.unparse(e))
+    combos = []
+    palette = set()
+    for color in (True, False):
+        for bg in (True, False):
+            if not (color or bg):
+                continue
+            env = {'accessor': ''}
+            run(blocks[0].body, env, {'color': color, 'bgcolor': bg})
+            need('used' in env, 'accessor is used for color=%s bgcolor=%s' % (color, bg))
+            combos.append((color, bg, env['used']))
+            palette |= set(env.get('palette', []))
+    try:
+        import colorful.ansi as cansi
+        lib_mods = sorted(cansi.MODIFIERS.keys())
+    except Exception as e:  # pragma: no cover
+        raise TranslateError('colorful.ansi.MODIFIERS not available: %s' % e)
+    out = ['(* GENERATED by harness/translate.py from color.py and the installed colorful - do not edit *)',
+           'From Coq Require Import List String Bool.', 'Import ListNotations.', 'Open Scope string_scope.',
+           'Definition used_modifiers : list string := [%s].' % '; '.join(coq_string(m) for m in mods),
+           'Definition colorful_modifiers : list string := [%s].' % '; '.join(coq_string(m) for m in lib_mods),
+           '(* (color present, bgcolor present, the attribute name looked up on colorful) *)',
+           'Definition accessors : list (bool * bool * string) := [%s].' % '; '.join(
+               '(%s, %s, %s)' % ('true' if c else 'false', 'true' if b else 'false', coq_string(a)) for c, b, a in combos),
+           'Definition palette_names : list string := [%s].' % '; '.join(coq_string(x) for x in sorted(palette)),
+           '']
+    return '\n'.join(out)
+
+
+GENERATORS = {'Consts.v': gen_consts, 'EntryPoints.v': gen_entrypoints, 'Extras.v': gen_extras, 'Tokens.v': gen_tokens, 'Colorful.v': gen_colorful}
 
 
 def generate():
